@@ -8,7 +8,7 @@ usage: mutants.py [id ...]     (no ids = all)
 """
 import subprocess, sys, os, json, tempfile, shutil
 
-REPO = "/repo"
+REPO = os.environ.get("MUT_REPO", "/repo")  # a scratch worktree may be used instead (tools/mutants_par.sh)
 ENV = dict(os.environ, GOFLAGS="-mod=mod", GOPROXY="off", GOSUMDB="off", GOTOOLCHAIN="local", GOWORK="off")
 
 # (id, property, expected rule substring ("" = must stay silent), [(file, old, new)...])
@@ -221,6 +221,7 @@ P = [
  ("S-C19-a2", "C19", "G-fish", "/verif/seeded/C19-a2/patch.diff"),
  ("S-C20-a2", "C20", "G-demote", "/verif/seeded/C20-a2/patch.diff"),
  ("C-6", "C18", "", "/verif/tools/controls/C-6-iterate-callback-export.diff"),
+ ("S-C01-a3", "C01", "D1-dep", "/verif/seeded/C01-a3/patch.diff"),
  ("S-C02-a3", "C02", "L2-nilarg", "/verif/seeded/C02-a3/patch.diff"),
  ("S-C03-a3", "C03", "D3-startup", "/verif/seeded/C03-a3/patch.diff"),
  ("S-C04-a3", "C04", "T-append-fresh", "/verif/seeded/C04-a3/patch.diff"),
@@ -323,6 +324,8 @@ def export(path):
     print(f"exported {len(out)} reference variants to {path}")
 
 def main():
+    if len(sys.argv) > 1 and sys.argv[1] == "--list":
+        print("\n".join(x[0] for x in M)); return
     if len(sys.argv) > 1 and sys.argv[1] == "--export":
         export(sys.argv[2] if len(sys.argv) > 2 else "/verif/positives.json"); return
     want = set(sys.argv[1:])
@@ -355,9 +358,10 @@ def main():
         if bb.returncode != 0 or bb.stdout.strip():
             print(f"{id}: does not build: {bb.stdout[:300]}")
             restore(); results.append((id, "NOBUILD")); continue
-        os.makedirs("/tmp/vmut", exist_ok=True)
-        shutil.copy("/verif/known_findings.json", "/tmp/vmut/known_findings.json")
-        out = sh(f"/verif/bin/saocheck -p {prop} -verif /tmp/vmut")
+        vm = "/tmp/vmut" + str(os.getpid())
+        os.makedirs(vm, exist_ok=True)
+        shutil.copy("/verif/known_findings.json", vm + "/known_findings.json")
+        out = sh(f"/verif/bin/saocheck -p {prop} -repo {REPO} -verif {vm}")
         fired = [l for l in out.stdout.splitlines() if l.startswith("violation:")]
         und = [l for l in out.stdout.splitlines() if l.startswith("UNDECIDED")]
         if rule == "":
@@ -371,7 +375,7 @@ def main():
                 print("     ", l[:300])
         results.append((id, status))
         restore()
-    shutil.rmtree("/tmp/vmut", ignore_errors=True)
+    shutil.rmtree("/tmp/vmut" + str(os.getpid()), ignore_errors=True)
     bad = [r for r in results if not r[1].startswith("OK")]
     print(f"{len(results)-len(bad)}/{len(results)} as expected")
     sys.exit(1 if bad else 0)
